@@ -12,6 +12,7 @@ import (
 	"sort"
 	"strings"
 	"sync"
+	"sync/atomic"
 	"time"
 
 	"github.com/pgavlin/dawn"
@@ -35,15 +36,29 @@ def mk(n):
 
 INC = mk(3)
 
-@target(sources=["a.txt"], generates=["out.txt"], default=True)
+@target(sources=["a.txt"], generates=["out.txt"], deps=["//a:ta", "//b:tb"], default=True)
 def t():
     helper(1)
     INC(2)
     sh.exec("echo run >> log.txt && cp a.txt out.txt")
 `
 
-// the child: one fresh Load + Run of //:default, as the CLI does
-var childPreferIndex bool
+// two more packages, each with a function target of its own (they load concurrently with the root package)
+const buildFileA = `A = [1, 2, 3]
+
+@target()
+def ta():
+    sh.exec("echo run-a >> ../log.txt; echo %d" % len(A))
+`
+
+const buildFileB = `def twice(x):
+    return 2 * x
+
+@target()
+def tb():
+    twice(4)
+    sh.exec("echo run-b >> ../log.txt")
+`
 
 // evaluated records which targets a run (re-)evaluated
 type evaluated struct {
@@ -58,13 +73,46 @@ func (e *evaluated) TargetEvaluating(l *label.Label, reason string, d diff.Value
 	e.mu.Unlock()
 }
 
+var childReuse, childPreferIndex bool
+
 func child(dir string) {
+	// a child never outlives its watchdog: a Load / Reload / Run that blocks for ever is reported, not waited for
+	time.AfterFunc(10*time.Second, func() {
+		fmt.Println("RESULT hang")
+		os.Exit(0)
+	})
 	def, _ := label.Parse("//:default")
 	ev := &evaluated{Events: dawn.DiscardEvents}
 	proj, err := dawn.Load(dir, &dawn.LoadOptions{Builtins: starlark.StringDict{"sh": starlark_sh.Module}, PreferIndex: childPreferIndex, Events: ev})
 	if err != nil {
 		fmt.Println("RESULT load-error")
 		return
+	}
+	if childReuse {
+		// the SAME Project used again after a record went bad under it (watch mode, the REPL, library users): every
+		// file X.fault under .dawn/build replaces X, then Reload twice, Targets, Run
+		filepath.Walk(filepath.Join(dir, ".dawn", "build"), func(p string, info os.FileInfo, err error) error {
+			if err == nil && strings.HasSuffix(p, ".fault") {
+				os.Rename(p, strings.TrimSuffix(p, ".fault"))
+			}
+			return nil
+		})
+		// (as watch mode does: a failed Reload is retried at the next change and nothing is run on it)
+		e1 := proj.Reload()
+		e2 := proj.Reload()
+		_ = proj.Targets()
+		if e1 != nil || e2 != nil {
+			_ = proj.Reload()
+			_, _ = proj.Target(def)
+			fmt.Println("RESULT load-error")
+			return
+		}
+		if err := proj.Run(def, nil); err != nil {
+			_ = proj.Run(def, nil) // and once more on the same Project
+			_ = proj.Targets()
+			fmt.Println("RESULT run-error")
+			return
+		}
 	}
 	if err := proj.Run(def, nil); err != nil {
 		fmt.Println("RESULT run-error")
@@ -77,10 +125,28 @@ func child(dir string) {
 
 func runChild(dir string) (string, string) { return runChildP(dir, false) }
 
-func runChildP(dir string, prefer bool) (string, string) {
+func runChildP(dir string, prefer bool) (string, string) { return runChildPR(dir, prefer, false) }
+
+// After this many children that crashed or hung the record-level streams stop spawning more: the check has failed, and
+// every hang costs its watchdog's time.
+const maxFatalChildren = 6
+
+var fatalChildren int32
+
+func tooManyFatal() bool { return atomic.LoadInt32(&fatalChildren) >= maxFatalChildren }
+
+func runChildPR(dir string, prefer, reuse bool) (res string, detail string) {
+	defer func() {
+		if res == "crash" || res == "hang" || res == "spawn-failed" {
+			atomic.AddInt32(&fatalChildren, 1)
+		}
+	}()
 	args := []string{"-child", dir}
 	if prefer {
 		args = append(args, "-prefer")
+	}
+	if reuse {
+		args = append(args, "-reuse")
 	}
 	cmd := exec.Command(os.Args[0], args...)
 	var out, errb bytes.Buffer
@@ -92,7 +158,7 @@ func runChildP(dir string, prefer bool) (string, string) {
 	go func() { done <- cmd.Wait() }()
 	select {
 	case <-done:
-	case <-time.After(60 * time.Second):
+	case <-time.After(20 * time.Second):
 		cmd.Process.Kill()
 		return "hang", ""
 	}
@@ -163,14 +229,18 @@ func runRecords(r *rng, tier string) {
 		os.MkdirAll(dir, 0o755)
 		os.WriteFile(filepath.Join(dir, ".dawnconfig"), nil, 0o644)
 		os.WriteFile(filepath.Join(dir, "BUILD.dawn"), []byte(buildFile), 0o644)
+		os.MkdirAll(filepath.Join(dir, "a"), 0o755)
+		os.MkdirAll(filepath.Join(dir, "b"), 0o755)
+		os.WriteFile(filepath.Join(dir, "a", "BUILD.dawn"), []byte(buildFileA), 0o644)
+		os.WriteFile(filepath.Join(dir, "b", "BUILD.dawn"), []byte(buildFileB), 0o644)
 		os.WriteFile(filepath.Join(dir, "a.txt"), []byte("source\n"), 0o644)
 		return dir
 	}
 	// a clean build gives the genuine record
 	dir0 := mk(0)
-	if res, e := runChild(dir0); res != "ok" || logLines(dir0) != 1 {
+	if res, e := runChild(dir0); res != "ok" || logLines(dir0) != 3 {
 		stats["rec.setup-failed"]++
-		fmt.Fprintln(os.Stderr, "record stream: clean build failed:", res, e)
+		fmt.Fprintln(os.Stderr, "record stream: clean build failed:", res, e, logLines(dir0))
 		return
 	}
 	recPath := filepath.Join(dir0, ".dawn", "build", "targets", "%2Ft")
@@ -189,7 +259,7 @@ func runRecords(r *rng, tier string) {
 	}
 	origDump := envDump(orig)
 	// unchanged tree, unchanged record: nothing executes
-	if res, _ := runChild(dir0); res != "ok" || logLines(dir0) != 1 {
+	if res, _ := runChild(dir0); res != "ok" || logLines(dir0) != 3 {
 		violation("record-spurious", map[string]any{"stream": "rec", "stamp": stamp}, "second build of the unchanged tree: "+res)
 	}
 	if replayRecord == "" && replayFault == nil {
@@ -278,6 +348,7 @@ func runRecords(r *rng, tier string) {
 		}
 		cases = append(cases, c)
 	}
+	snap := snapshotBuild(dir0)
 	var mu sync.Mutex
 	var wg sync.WaitGroup
 	ch := make(chan recCase)
@@ -290,20 +361,14 @@ func runRecords(r *rng, tier string) {
 			os.MkdirAll(filepath.Dir(path), 0o755)
 			os.MkdirAll(filepath.Join(dir, ".dawn", "build", "temp"), 0o755)
 			os.WriteFile(filepath.Join(dir, "out.txt"), []byte("source\n"), 0o644)
-			// the source's own record, so that only the function target's stamp differs from a clean state
-			for _, sub := range []string{"sources"} {
-				src := filepath.Join(dir0, ".dawn", "build", sub)
-				filepath.Walk(src, func(p string, info os.FileInfo, err error) error {
-					if err == nil && !info.IsDir() {
-						rel, _ := filepath.Rel(dir0, p)
-						os.MkdirAll(filepath.Dir(filepath.Join(dir, rel)), 0o755)
-						b, _ := os.ReadFile(p)
-						os.WriteFile(filepath.Join(dir, rel), b, 0o644)
-					}
-					return nil
-				})
-			}
 			for c := range ch {
+				if tooManyFatal() && replayRecord == "" {
+					mu.Lock()
+					stats["rec.skipped-after-fatal-cases"]++
+					mu.Unlock()
+					continue
+				}
+				restoreBuild(dir, snap) // the clean, fully built state; then only this one record differs
 				content := recBytes
 				if c.fixed != nil {
 					content = c.fixed
@@ -362,6 +427,9 @@ func runRecords(r *rng, tier string) {
 	wg.Wait()
 	if replayRecord == "" {
 		runFileFaults(r, tier, dir0, mk)
+	}
+	if replayRecord == "" && (replayFault == nil || replayFault["stream"] == "recmulti") {
+		runMultiPackage(tier, dir0, mk, snap)
 	}
 }
 
